@@ -51,6 +51,8 @@ def gen_program(seed, idx, tier):
     prog = g.program()
     if not g.on_reset and rs.below(4) == 0:
         prog["reset"]["derive"] = {"op": rs.choice(["or", "and"]), "low": bool(rs.below(2))}
+    elif not g.on_reset and rs.below(5) == 0:
+        prog["reset"]["derive"] = {"op": "replace", "low": bool(rs.below(2)), "base": rs.choice(["xr", "xr", "none"]), "base_async": bool(rs.below(2))}
     if rs.below(4) == 0:
         prog["tap"] = rs.choice(["q", "r"] + (["nr"] if "nr" in g.targets else []))
     return prog
@@ -109,7 +111,9 @@ class Runner:
                 pins["xr"] = self.Lx if on else 1 - self.Lx
                 self.x_act = on
             self.b.apply(pins)
-            self.rst_active = (self.p_act or self.x_act) if self.derive["op"] == "or" else (self.p_act and self.x_act)
+            op = self.derive["op"]
+            # (replace: the base context's reset on xr was replaced by with_params -- xr resets nothing)
+            self.rst_active = self.p_act if op == "replace" else (self.p_act or self.x_act) if op == "or" else (self.p_act and self.x_act)
             self.reset_seen = self.reset_seen or (self.is_async and self.rst_active)
             if self.is_async and self.rst_active:
                 self.ref.reset()
